@@ -48,6 +48,8 @@ def run(ctx):
     hyp_bad = 0
     hyp_ok = 0
     laok = 0
+    cons_hyp = 0
+    cons_bad = 0
     for line in out.split("\n"):
         if not line.strip():
             continue
@@ -64,6 +66,14 @@ def run(ctx):
         lang = cid.rsplit("-", 1)[0]
         if kv.get("laok") == "1":
             laok += 1
+        if kv.get("consb") == "1" and kv.get("editok2") == "1":
+            cons_hyp += 1
+            if kv.get("consa") != "1" or kv.get("consm") != "1":
+                # edit_consistent's conclusion fails on a real tree although its hypotheses hold:
+                # the implementation (consa) or the port (consm) left the text-consistent trees
+                cons_bad += 1
+                ctx.violation("judge", "Cons (row/column consistency with the new text) is lost by ts_tree_edit although the tree was consistent and the edit is EditOK (edit_consistent's conclusion fails on the real tree: consa=%s, model tree: consm=%s)" % (kv.get("consa"), kv.get("consm")),
+                              {"case": cid, "spec": specs.get(cid, ""), "result": kv}, fingerprint={"lang": lang, "clause": "cons-lost"})
         if kv.get("wfb") == "1" and kv.get("editok") == "1":
             hyp_ok += 1
         elif kv.get("wfb") != "1":
@@ -84,7 +94,9 @@ def run(ctx):
                           fingerprint={"lang": lang, "corr": "diff"}, found_input=False)
     ctx.oblige("corr:editTree=ts_subtree_edit", corr_bad == 0, "%d disagreements" % corr_bad)
     ctx.oblige("hyp:WFb-holds-on-every-real-tree(before and after)", hyp_bad == 0, "%d trees violate WFb" % hyp_bad)
-    ctx.coverage["theorem_hypotheses_met"] = {"cases_with_WFb_and_EditB": hyp_ok, "WFb_violations": hyp_bad, "cases_with_LaOK": laok}
+    ctx.coverage["theorem_hypotheses_met"] = {"cases_with_WFb_and_EditB": hyp_ok, "WFb_violations": hyp_bad, "cases_with_LaOK": laok,
+                                                "cases_with_Cons_and_EditOK(edit_consistent applies)": cons_hyp,
+                                                "edit_consistent_conclusion_failed_on_real_tree": cons_bad}
     ctx.coverage.update({
         "evaluations": evals, "distinct_nontrivial": len(distinct),
         "rule": "zoo languages x grammar-directed documents (every 5th byte-mutated) x edit histories of 1-4 random edits "
